@@ -73,8 +73,8 @@ type vTarget struct {
 }
 
 func (t *vTarget) Init(*config.Map) error { return nil }
-func (t *vTarget) Name() string          { return "target.verif_tgt" }
-func (t *vTarget) InstanceName() string  { return "verif_tgt_" + t.id }
+func (t *vTarget) Name() string           { return "target.verif_tgt" }
+func (t *vTarget) InstanceName() string   { return "verif_tgt_" + t.id }
 
 type vDelivery struct {
 	t     *vTarget
@@ -155,8 +155,8 @@ func (d *vPartialDelivery) BodyNonAtomic(ctx context.Context, sc module.StatusCo
 type vSetTable struct{ keys map[string]bool }
 
 func (t *vSetTable) Init(*config.Map) error { return nil }
-func (t *vSetTable) Name() string          { return "table.verif_set" }
-func (t *vSetTable) InstanceName() string  { return "verif_set" }
+func (t *vSetTable) Name() string           { return "table.verif_set" }
+func (t *vSetTable) InstanceName() string   { return "verif_set" }
 func (t *vSetTable) Lookup(_ context.Context, k string) (string, bool, error) {
 	return "", t.keys[k], nil
 }
@@ -164,8 +164,8 @@ func (t *vSetTable) Lookup(_ context.Context, k string) (string, bool, error) {
 type vMapTable struct{ m map[string][]string }
 
 func (t *vMapTable) Init(*config.Map) error { return nil }
-func (t *vMapTable) Name() string          { return "table.verif_map" }
-func (t *vMapTable) InstanceName() string  { return "verif_map" }
+func (t *vMapTable) Name() string           { return "table.verif_map" }
+func (t *vMapTable) InstanceName() string   { return "verif_map" }
 func (t *vMapTable) Lookup(_ context.Context, k string) (string, bool, error) {
 	v := t.m[k]
 	if len(v) == 0 {
